@@ -194,6 +194,7 @@ namespace c15 {
         std::printf( "monitor iter%s\n", mo.iter.c_str());
         std::printf( "monitor size %ld empty %d\n", mo.size, mo.empty );
         if ( !mo.structural.empty()) std::printf( "%s", mo.structural.c_str());
+        std::printf( "monitor shape %s\n", mo.shape.c_str());
         std::printf( "monitor final" );
         for ( int k = 0; k < NKEYS; ++k ) {
             R r = a->apply( 11, k, 0 );
